@@ -1165,7 +1165,7 @@ package fzf
 // may still hold shift-in/out bytes or backspace overstrikes - and, with colours, the state returned for one line is
 // the state handed in for the next.
 //@ func Run closure @"prevLineAnsiState = lineAnsiState"
-//@ property C11
+//@ property C11 C07
 //@ ghost nx int
 //@ ghost gin int
 //@ ghost gout int
@@ -1179,7 +1179,7 @@ package fzf
 //@ modifies lineAnsiState, prevLineAnsiState
 //@ ensures nx == 1 && gin == old(lineAnsiState) && prevLineAnsiState == old(lineAnsiState) && lineAnsiState == gout && r1 == goff
 //@ func Run closure @"trimmed, _, _ := extractColor(byteString(data), nil, nil)"
-//@ property C11
+//@ property C11 C07
 //@ ghost nx int
 //@ ghost @"trimmed, _, _ := extractColor(" nx = nx + 1
 //@ requires len(data) < 2147483648
